@@ -1,8 +1,30 @@
 """C30 Constant folding and propagation preserve program meaning (compile/ast/folder.go, propfold.go)
 
-Mutation testing (scratch worktrees, quick tier; each mutant compiles and keeps
-`go test ./compile/...` green unless noted; all are reported as VIOLATION):
-  see the list at the end of this docstring (filled in by the mutation runs)
+Findings re-found / found on the unchanged tree (fix: commits in /tmp/wt-values; fallback keys =
+FAMILIES below, matched on the rejected expression):
+  F15  absorbing-element shortcuts skip operand validation (0 or true -> true, 0 & .5 -> 0) - and, new,
+       drop operands with side effects: f() and false, f() * 0 never call f      key fold-absorbing-shortcut
+  new  -1 & -1 folds to 4294967295, -1 | 0xffffffff to 4294967295 (32-bit identity)   key fold-bits-32bit-allones
+  new  constant / variable is compiled as (1 / variable) * constant: 255 / x = 84.99999999999999 for x = 3
+                                                                                   key fold-const-div-var-reciprocal
+  new  (thorough) x - 1e20 - .5 folds the constants first and gives 0 instead of -.5 for x = 1e20;
+       no fix proposed (inherent to re-associating 16-digit decimals)   key fold-reassociation-absorbs-small-term
+
+Mutation testing (scratch worktree on top of the fix commits, quick tier, seed 1; "tests" =
+go test -short ./compile/ ./compile/ast/ with the mutant):
+  N2  folder.go   foldCat displays dates/objects instead of failing               tests green   VIOLATION
+  N4  folder.go   foldIn answers true when no member matches (3+ members)         tests green   VIOLATION
+  N11 folder.go   not (a < b) rewritten to a > b                                  tests green   VIOLATION (after adding negated comparisons)
+  N13 folder.go   ^ folded with identity 1                                        tests green   VIOLATION
+  N21 folder.go   foldIn ignores the first member                                 tests green   VIOLATION
+  N22 folder.go   or-to-in conversion drops a true first alternative              tests green   VIOLATION
+  N5  propfold.go operands after a false `and` operand replaced by true           tests green   not reported: equivalent (the
+                  folder then short-circuits on the false operand anyway)
+  N1 fold <= as <, N3 ?: false takes the true branch, N6 if false takes then, N8 shortcut restored,
+  N9 c / x reciprocal restored, N10 reversed < becomes >=, N16 range lower bound always inclusive,
+  N20 Number? true for dates: all VIOLATION, but the package's own tests fail with them
+  N7  unary minus no longer rejected on "" literal: not reported - only removes a static diagnostic
+      (run-time meaning unchanged), package tests fail
 """
 
 import json, os, re
